@@ -11,7 +11,8 @@ RULE = ("dadd +-Nmo / +-Nq / +-Ny over stdin batches for ymd, ymcw, bizda (month
         "years) and ywd, yd (years); days = all month ends and 29th..31st of the shard's slice "
         "sample + boundary + random days (thorough: every day); counts months {1..14,23..25,48,120,"
         "1199..1201}, quarters {1..5}, years {1..5,28,99..101,400}, both signs; two and three steps "
-        "in one invocation against one step of the sum. Expected: (year, month) moved by exactly k, "
+        "in one invocation against one step of the sum, a calendar step followed by a day / week step "
+        "(which starts from the cropped date), and results printed in another calendar (-f ymd / ywd). Expected: (year, month) moved by exactly k, "
         "day / count / business-day index / week / day-of-year kept and clamped to the last "
         "existing one. Non-trivial: start day-of-month >= 29, 5th weekday, week 53, day 366, "
         "business day >= 21, or a year wrap")
@@ -102,6 +103,45 @@ def exp_yd(n, info):
 EXP = {"ymd": exp_ymd, "ymcw": exp_ymcw, "bizda": exp_bizda, "ywd": exp_ywd, "yd": exp_yd}
 
 
+def _n_of_text(rep, t):
+    """day number of a reference text in representation rep"""
+    if rep == "ymd":
+        return R.n_of(int(t[:4]), int(t[5:7]), int(t[8:10]))
+    if rep == "ymcw":
+        return R.n_of_ymcw(int(t[:4]), int(t[5:7]), int(t[8:10]), int(t[11:13]))
+    if rep == "bizda":
+        return R.n_of_bizda(int(t[:4]), int(t[5:7]), int(t[8:10]))
+    if rep == "ywd":
+        return R.n_of_iso(int(t[:4]), int(t[6:8]), int(t[9:10]))
+    return R.n_of(int(t[:4]), 1, 1) + int(t[5:8]) - 1
+
+
+def exp_then_days(rep):
+    """calendar step(s) first (cropped), then a day / week step from the cropped date"""
+    def f(n, info):
+        cal = [(k, u) for k, u in info if u not in ("d", "w")]
+        days = sum(k * (7 if u == "w" else 1) for k, u in info if u in ("d", "w"))
+        t = EXP[rep](n, cal)
+        if t is None:
+            return None
+        n2 = _n_of_text(rep, t) + days
+        if not (R.NMIN <= n2 <= R.NMAX):
+            return None
+        if rep == "bizda" and not R.is_bday(n2):
+            return None
+        return A.REPS[rep][1](n2)
+    return f
+
+
+def exp_other_cal(rep, outrep):
+    def f(n, info):
+        t = EXP[rep](n, info)
+        if t is None:
+            return None
+        return A.REPS[outrep][1](_n_of_text(rep, t))
+    return f
+
+
 def _nt(rep):
     def f(n, info):
         if rep == "ymd":
@@ -118,6 +158,8 @@ def _nt(rep):
 
 def _tag(rep):
     def t(info):
+        if len(info) > 1 and info[-1][1] in ("d", "w"):
+            return "%s:then:%s" % (rep, "+".join(u for _, u in info))
         if len(info) > 1:
             return "%s:compose:%s" % (rep, "+".join(u for _, u in info))
         k, u = info[0]
@@ -176,10 +218,26 @@ def months(ctx, shard, nshards):
     for _ in range(10):
         parts = [(rnd.choice(KY[:7]) * rnd.choice((1, -1)), "y") for _ in range(2)]
         comp_y.append((["%+d%s" % p for p in parts], parts))
+    # a calendar step followed by a day / week step: the day step starts from the cropped date
+    then_m, then_y = [], []
+    for _ in range(10):
+        kd = rnd.choice((1, -1, 1, -1, 7, 30, -45)), rnd.choice(("d", "d", "w"))
+        u = rnd.choice(("mo", "mo", "q"))
+        p = (rnd.choice(KM[:14] if u == "mo" else KQ) * rnd.choice((1, -1)), u)
+        then_m.append((["%+d%s" % p, "%+d%s" % kd], [p, kd]))
+        p = (rnd.choice(KY[:6]) * rnd.choice((1, -1)), "y")
+        then_y.append((["%+d%s" % p, "%+d%s" % kd], [p, kd]))
     for rep in ("ymd", "ymcw", "bizda"):
         A.sweep(ctx, sub, V, rep, durs_m + durs_y + comp_m + comp_y, days, EXP[rep], _tag(rep), _nt(rep))
+        A.sweep(ctx, sub, V, rep, then_m + then_y, days, exp_then_days(rep), _tag(rep), _nt(rep))
     for rep in ("ywd", "yd"):
         A.sweep(ctx, sub, V, rep, durs_y + comp_y, days, EXP[rep], _tag(rep), _nt(rep))
+        A.sweep(ctx, sub, V, rep, then_y, days, exp_then_days(rep), _tag(rep), _nt(rep))
+    # the cropped result printed in another calendar (a third of the steps per shard)
+    for rep, durs in (("ymd", durs_m + durs_y), ("ymcw", durs_m + durs_y), ("ywd", durs_y), ("yd", durs_y)):
+        outrep = "ywd" if rep == "ymd" else "ymd"
+        A.sweep(ctx, sub, V, rep, durs[shard % 3::3], days, exp_other_cal(rep, outrep),
+                lambda info, t=_tag(rep), o=outrep: t(info) + ">" + o, _nt(rep), extra_args=("-f", outrep))
     if shard == 0:
         sub.sample({"rep": "ymd", "in": "2012-01-31", "dur": ["+1mo"], "expected": "2012-02-29"})
         sub.sample({"rep": "ymcw", "in": A.in_text("ymcw", days[3]), "dur": ["+1mo", "-13mo"],
@@ -188,7 +246,7 @@ def months(ctx, shard, nshards):
 
 
 def _parse(d):
-    for u in ("mo", "q", "y"):
+    for u in ("mo", "q", "y", "d", "w"):
         if d.endswith(u):
             return int(d[:-len(u)]), u
     raise ValueError(d)
@@ -197,5 +255,12 @@ def _parse(d):
 def replay(ctx, subname, case):
     info = [_parse(d) for d in case["dur"]]
     n = case.get("n")
-    x = EXP[case["rep"]](n, info) if n is not None else None
+    x = None
+    if n is not None:
+        if case.get("outrep"):
+            x = exp_other_cal(case["rep"], case["outrep"])(n, info)
+        elif info and info[-1][1] in ("d", "w"):
+            x = exp_then_days(case["rep"])(n, info)
+        else:
+            x = EXP[case["rep"]](n, info)
     return A.replay_one(ctx, case, x)
